@@ -20,7 +20,7 @@ type Desc struct {
 	Kind  string `json:"kind"`  // form renew refreshFull refreshPartial
 	PV    string `json:"pv"`    // ok allow0 coll price proof chal hfund rfund noelem
 	Basis string `json:"basis"` // same behind fork forkx
-	Inp   string `json:"inp"`   // conf unconf unconfc (parent confirmed on the host's chain in blocks the renter lacks)
+	Inp   string `json:"inp"`   // conf unconf forkc (confirmed only on the renter's own fork) unconfc (parent confirmed on the host's chain in blocks the renter lacks)
 	Fault string `json:"fault"` // none dial cutB1..cutA4 m1basis m1value m2low m2id m3sig m3pol m3len m4empty m4sig m4txn bcast record
 }
 
